@@ -1,0 +1,268 @@
+//! Verification hooks.
+//!
+//! Compiled only with `--cfg curve25519_dalek_verif`.  Nothing in here changes the behaviour
+//! of the crate: the items below forward to crate-private operations so that an external
+//! model checker can start them from chosen internal representations and observe their
+//! internal results.
+
+#![allow(missing_docs, non_snake_case, dead_code, unused_imports)]
+
+extern crate std;
+
+use alloc::vec::Vec;
+
+use subtle::Choice;
+use subtle::ConditionallyNegatable;
+use subtle::ConditionallySelectable;
+use subtle::ConstantTimeEq;
+
+use crate::edwards::EdwardsPoint;
+use crate::field::FieldElement;
+use crate::ristretto::RistrettoPoint;
+
+/// Name of the serial field representation compiled in.
+pub const FIELD_IMPL: &str = {
+    cfg_if::cfg_if! {
+        if #[cfg(all(curve25519_dalek_backend = "fiat", curve25519_dalek_bits = "32"))] { "fiat_u32" }
+        else if #[cfg(all(curve25519_dalek_backend = "fiat", curve25519_dalek_bits = "64"))] { "fiat_u64" }
+        else if #[cfg(curve25519_dalek_bits = "64")] { "u64" }
+        else { "u32" }
+    }
+};
+
+/// Name of the compile-time backend selection.
+pub const BACKEND_CFG: &str = {
+    cfg_if::cfg_if! {
+        if #[cfg(all(curve25519_dalek_backend = "unstable_avx512", nightly))] { "unstable_avx512" }
+        else if #[cfg(curve25519_dalek_backend = "simd")] { "simd" }
+        else if #[cfg(curve25519_dalek_backend = "fiat")] { "fiat" }
+        else { "serial" }
+    }
+};
+
+/// Number of limbs of the serial field element.
+pub const FE_LIMBS: usize = {
+    cfg_if::cfg_if! {
+        if #[cfg(curve25519_dalek_bits = "64")] { 5 } else { 10 }
+    }
+};
+
+// ------------------------------------------------------------------------------------------
+// H1: serial field element
+// ------------------------------------------------------------------------------------------
+
+/// A crate-private `FieldElement`, with raw-limb access.
+#[derive(Copy, Clone)]
+pub struct Fe(pub(crate) FieldElement);
+
+impl Fe {
+    /// Build from raw limbs (5 for 64-bit, 10 for 32-bit representations).
+    pub fn from_limbs(l: &[u64]) -> Fe {
+        assert_eq!(l.len(), FE_LIMBS);
+        cfg_if::cfg_if! {
+            if #[cfg(curve25519_dalek_bits = "64")] {
+                Fe(FieldElement::from_limbs([l[0], l[1], l[2], l[3], l[4]]))
+            } else {
+                let mut a = [0u32; 10];
+                for i in 0..10 {
+                    assert!(l[i] <= u32::MAX as u64);
+                    a[i] = l[i] as u32;
+                }
+                Fe(FieldElement::from_limbs(a))
+            }
+        }
+    }
+
+    /// Raw limbs.
+    pub fn limbs(&self) -> Vec<u64> {
+        cfg_if::cfg_if! {
+            if #[cfg(curve25519_dalek_backend = "fiat")] {
+                (self.0).0 .0.iter().map(|x| *x as u64).collect()
+            } else {
+                (self.0).0.iter().map(|x| *x as u64).collect()
+            }
+        }
+    }
+
+    pub fn zero() -> Fe {
+        Fe(FieldElement::ZERO)
+    }
+    pub fn one() -> Fe {
+        Fe(FieldElement::ONE)
+    }
+    pub fn minus_one() -> Fe {
+        Fe(FieldElement::MINUS_ONE)
+    }
+    pub fn from_bytes(b: &[u8; 32]) -> Fe {
+        Fe(FieldElement::from_bytes(b))
+    }
+    pub fn as_bytes(&self) -> [u8; 32] {
+        self.0.as_bytes()
+    }
+    pub fn add(&self, o: &Fe) -> Fe {
+        Fe(&self.0 + &o.0)
+    }
+    pub fn add_assign(&self, o: &Fe) -> Fe {
+        let mut x = self.0;
+        x += &o.0;
+        Fe(x)
+    }
+    pub fn sub(&self, o: &Fe) -> Fe {
+        Fe(&self.0 - &o.0)
+    }
+    pub fn sub_assign(&self, o: &Fe) -> Fe {
+        let mut x = self.0;
+        x -= &o.0;
+        Fe(x)
+    }
+    pub fn mul(&self, o: &Fe) -> Fe {
+        Fe(&self.0 * &o.0)
+    }
+    pub fn mul_assign(&self, o: &Fe) -> Fe {
+        let mut x = self.0;
+        x *= &o.0;
+        Fe(x)
+    }
+    pub fn neg(&self) -> Fe {
+        Fe(-&self.0)
+    }
+    pub fn negate(&self) -> Fe {
+        cfg_if::cfg_if! {
+            if #[cfg(curve25519_dalek_backend = "fiat")] {
+                Fe(-&self.0)
+            } else {
+                let mut x = self.0;
+                x.negate();
+                Fe(x)
+            }
+        }
+    }
+    pub fn square(&self) -> Fe {
+        Fe(self.0.square())
+    }
+    pub fn square2(&self) -> Fe {
+        Fe(self.0.square2())
+    }
+    pub fn pow2k(&self, k: u32) -> Fe {
+        Fe(self.0.pow2k(k))
+    }
+    pub fn invert(&self) -> Fe {
+        Fe(self.0.invert())
+    }
+    pub fn invsqrt(&self) -> (bool, Fe) {
+        let (c, r) = self.0.invsqrt();
+        (c.into(), Fe(r))
+    }
+    pub fn sqrt_ratio_i(u: &Fe, v: &Fe) -> (bool, Fe) {
+        let (c, r) = FieldElement::sqrt_ratio_i(&u.0, &v.0);
+        (c.into(), Fe(r))
+    }
+    #[cfg(feature = "alloc")]
+    pub fn batch_invert(xs: &[Fe]) -> Vec<Fe> {
+        let mut v: Vec<FieldElement> = xs.iter().map(|x| x.0).collect();
+        FieldElement::batch_invert(&mut v);
+        v.into_iter().map(Fe).collect()
+    }
+    pub fn is_negative(&self) -> bool {
+        self.0.is_negative().into()
+    }
+    pub fn is_zero(&self) -> bool {
+        self.0.is_zero().into()
+    }
+    pub fn ct_eq(&self, o: &Fe) -> bool {
+        self.0.ct_eq(&o.0).into()
+    }
+    pub fn eq(&self, o: &Fe) -> bool {
+        self.0 == o.0
+    }
+    pub fn conditional_select(a: &Fe, b: &Fe, c: bool) -> Fe {
+        Fe(FieldElement::conditional_select(&a.0, &b.0, Choice::from(c as u8)))
+    }
+    pub fn conditional_assign(&self, o: &Fe, c: bool) -> Fe {
+        let mut x = self.0;
+        x.conditional_assign(&o.0, Choice::from(c as u8));
+        Fe(x)
+    }
+    pub fn conditional_swap(a: &Fe, b: &Fe, c: bool) -> (Fe, Fe) {
+        let (mut x, mut y) = (a.0, b.0);
+        FieldElement::conditional_swap(&mut x, &mut y, Choice::from(c as u8));
+        (Fe(x), Fe(y))
+    }
+    pub fn conditional_negate(&self, c: bool) -> Fe {
+        let mut x = self.0;
+        x.conditional_negate(Choice::from(c as u8));
+        Fe(x)
+    }
+    #[cfg(feature = "zeroize")]
+    pub fn zeroized(&self) -> Fe {
+        use zeroize::Zeroize;
+        let mut x = self.0;
+        x.zeroize();
+        Fe(x)
+    }
+}
+
+// ------------------------------------------------------------------------------------------
+// H1: points
+// ------------------------------------------------------------------------------------------
+
+/// The four internal coordinates of an Edwards point.
+pub fn edwards_coords(P: &EdwardsPoint) -> [Fe; 4] {
+    [Fe(P.X), Fe(P.Y), Fe(P.Z), Fe(P.T)]
+}
+
+/// Build an `EdwardsPoint` from raw coordinates (no validation; for kernels started at a
+/// chosen representation).
+pub fn edwards_from_coords(c: &[Fe; 4]) -> EdwardsPoint {
+    EdwardsPoint {
+        X: c[0].0,
+        Y: c[1].0,
+        Z: c[2].0,
+        T: c[3].0,
+    }
+}
+
+/// The Edwards representative inside a Ristretto point.
+pub fn ristretto_inner(P: &RistrettoPoint) -> EdwardsPoint {
+    P.0
+}
+
+/// Wrap an Edwards point (which must lie in 2E, as all internal representatives do).
+pub fn ristretto_from_inner(P: &EdwardsPoint) -> RistrettoPoint {
+    RistrettoPoint(*P)
+}
+
+/// The Ristretto-flavoured Elligator map on one field element.
+pub fn elligator_ristretto_flavor(r0: &Fe) -> RistrettoPoint {
+    RistrettoPoint::elligator_ristretto_flavor(&r0.0)
+}
+
+/// The Montgomery-flavoured Elligator map on one field element.
+pub fn elligator_montgomery(r0: &Fe) -> crate::montgomery::MontgomeryPoint {
+    crate::montgomery::elligator_encode(&r0.0)
+}
+
+// ------------------------------------------------------------------------------------------
+// H1: crate-private constants
+// ------------------------------------------------------------------------------------------
+
+/// `(name, value)` for every crate-private field constant of the selected serial backend.
+pub fn field_constants() -> Vec<(&'static str, Fe)> {
+    use crate::constants as k;
+    let mut v = Vec::new();
+    v.push(("ZERO", Fe(FieldElement::ZERO)));
+    v.push(("ONE", Fe(FieldElement::ONE)));
+    v.push(("FE_MINUS_ONE", Fe(FieldElement::MINUS_ONE)));
+    v.push(("MINUS_ONE", Fe(k::MINUS_ONE)));
+    v.push(("EDWARDS_D", Fe(k::EDWARDS_D)));
+    v.push(("EDWARDS_D2", Fe(k::EDWARDS_D2)));
+    v.push(("ONE_MINUS_EDWARDS_D_SQUARED", Fe(k::ONE_MINUS_EDWARDS_D_SQUARED)));
+    v.push(("EDWARDS_D_MINUS_ONE_SQUARED", Fe(k::EDWARDS_D_MINUS_ONE_SQUARED)));
+    v.push(("SQRT_AD_MINUS_ONE", Fe(k::SQRT_AD_MINUS_ONE)));
+    v.push(("INVSQRT_A_MINUS_D", Fe(k::INVSQRT_A_MINUS_D)));
+    v.push(("SQRT_M1", Fe(k::SQRT_M1)));
+    v.push(("APLUS2_OVER_FOUR", Fe(k::APLUS2_OVER_FOUR)));
+    v.push(("MONTGOMERY_A", Fe(k::MONTGOMERY_A)));
+    v.push(("MONTGOMERY_A_NEG", Fe(k::MONTGOMERY_A_NEG)));
+    v
+}
